@@ -110,6 +110,100 @@ def judgeU2U (how : String) (s : Bytes) (out : String) : Bool :=
 
 def scalarB (c : Nat) : Bool := c ≤ 0x10FFFF && !(0xD800 ≤ c && c ≤ 0xDFFF)
 
+/-! ### text widget scenarios: `form op op …` -/
+
+def encOf (e : String) : List Nat :=
+  if e == "u" then [117, 116, 102, 45, 56] else [105, 115, 111, 56, 56, 53, 57, 45, 49]   -- "utf-8" / "iso8859-1"
+
+def parseInt (s : String) : Option Int :=
+  if s.startsWith "-" then (s.drop 1).toNat?.map (fun n => -(n : Int)) else s.toNat?.map (fun n => (n : Int))
+
+def parseFormOp (w : String) : Option Form.Op :=
+  match w.splitOn ":" with
+  | ["nm1"] => some (.name true)
+  | ["nm0"] => some (.name false)
+  | ["ne"] => some .nonEmpty
+  | ["vc1"] => some (.validateCharset true)
+  | ["vc0"] => some (.validateCharset false)
+  | ["cl"] => some .clear
+  | ["va"] => some .validate
+  | ["lim", a, b] => match parseInt a, parseInt b with
+    | some a, some b => some (.limits a b) | _, _ => none
+  | ["sv", h] => (parseHex h).map .setValue
+  | ["ld", e, h] => (parseHex h).map fun v => .load ⟨encOf e, some v⟩
+  | ["la", e] => some (.load ⟨encOf e, none⟩)
+  | _ => none
+
+def runForm (ops : List String) : String :=
+  let rec go (st : Form.St) (ops : List String) (acc : List String) : List String :=
+    match ops with
+    | [] => acc.reverse
+    | w :: rest =>
+      match parseFormOp w with
+      | none => ["bad-op"]
+      | some op =>
+        match op with
+        | .validate =>
+          let r := Form.validate st
+          go r.2 rest (s!"V{boolStr r.1}{boolStr r.2.isValid}" :: acc)
+        | .load rq =>
+          let st' := Form.load st rq
+          if st'.external then ["ext"]
+          else go st' rest (s!"L{boolStr st'.isValid}{boolStr st'.isSet}:{toHex st'.value}" :: acc)
+        | _ => go (Form.apply st op) rest acc
+  let toks := go (Form.init 0) ops []
+  if toks.isEmpty then "-" else String.intercalate " " toks
+
+/-- judge (Spec only): every `va` that directly follows a load (configuration changes in between
+allowed) must report what the *just loaded* field implies: absent / unnamed = 0 characters,
+charset validation on (UTF-8 locale) = number of code points of HTML-safe well-formed text,
+off = number of bytes; compared with the limits in force. -/
+structure JF where
+  low : Int := 0
+  high : Int := -1
+  vc : Bool := true
+  named : Bool := false
+  expect : Option (Option Nat) := none     -- some (some n): loaded n characters; some none: invalid text; none: not judgeable now
+def judgeForm (ops toks : List String) : Bool :=
+  let rec go (j : JF) (ops toks : List String) : Bool :=
+    match ops with
+    | [] => true
+    | w :: rest =>
+      match w.splitOn ":" with
+      | ["nm1"] => go { j with named := true, expect := none } rest toks
+      | ["nm0"] => go { j with named := false, expect := none } rest toks
+      | ["ne"] => go { j with low := 1, high := -1 } rest toks
+      | ["vc1"] => go { j with vc := true, expect := none } rest toks
+      | ["vc0"] => go { j with vc := false, expect := none } rest toks
+      | ["cl"] => go { j with expect := none } rest toks
+      | ["sv", _] => go { j with expect := none } rest toks
+      | ["lim", a, b] => (match parseInt a, parseInt b with
+        | some a, some b => go { j with low := a, high := b } rest toks
+        | _, _ => false)
+      | ["la", _] => go { j with expect := some (some 0) } rest (toks.drop 1)
+      | ["ld", e, h] => (match parseHex h with
+        | none => false
+        | some v =>
+          let ex : Option (Option Nat) :=
+            if !j.named then some (some 0)
+            else if !j.vc then some (some v.length)
+            else if e == "u" then some (Spec.wellFormedCount true v)
+            else none
+          go { j with expect := ex } rest (toks.drop 1))
+      | ["va"] => (match toks with
+        | [] => false
+        | t :: toks' =>
+          let ok := match j.expect with
+            | none => true
+            | some cnt =>
+              if j.low < 0 then true
+              else
+                let want := match cnt with | none => false | some n => Spec.withinLimits j.low j.high n
+                (t.take 2).toString == (if want then "V1" else "V0")
+          ok && go { j with expect := none } rest toks')
+      | _ => false
+  go {} ops toks
+
 def step (_ : Unit) (line : String) : Unit × String :=
   let r : String :=
     match words line with
@@ -155,6 +249,11 @@ def step (_ : Unit) (line : String) : Unit × String :=
     | ["w2u", how, cs] => match how.toNat?, parseCps cs with
       | some hw, some us => (match Boost.utf32ToUtf8 hw us with | none => "throw" | some o => toHex o)
       | _, _ => "bad-op"
+    | "form" :: ops => runForm ops
+    | "J" :: "form" :: rest =>
+      let ops := rest.takeWhile (· != "@")
+      let toks := (rest.dropWhile (· != "@")).drop 1
+      boolStr (judgeForm ops toks)
     -- judges (Spec only)
     | ["J", "u2u", how, h, out] => match parseHex h with
       | some s => boolStr (judgeU2U how s out) | none => "bad-op"
